@@ -527,6 +527,39 @@ def check(ctx: Ctx) -> list[RuleResult]:
     if not muts:
         r5.instances += 1
         r5.ok({"mutations_of_extra": 0})
+    # a packet's timestamp is written once, by its constructor: what is logged, what is keyed in a saved state and what is replayed
+    # are the same instant (a later adjustment - "make it unique", "align to the clock" - makes the replayed packet differ from
+    # the one that was delivered)
+    r5.instances += 1
+    r5.nontrivial += 1
+    dw = [(g, n) for g in repo.funcs.values() if g.module.name.startswith(("ramses_tx", "ramses_rf")) for n in own_nodes(g.node) if isinstance(n, ast.Attribute) and n.attr == "_dtm" and isinstance(n.ctx, (ast.Store, ast.Del))]
+    bad_dw = [(g, n) for g, n in dw if not (g.qualname == "ramses_tx.packet.Packet.__init__" and isinstance(n.value, ast.Name) and n.value.id == "self")]
+    if not dw:
+        raise AnalysisError("no write of Packet._dtm found")
+    if bad_dw:
+        g, n = bad_dw[0]
+        r5.fail(f"{g.short}:packet-timestamp-rewritten", g.loc(n), f"{g.short} re-writes a packet's timestamp (`{norm(getattr(n, 'parent', n))[:60]}`): the packet delivered, the packet logged and the packet read back by the replayer no longer carry the same timestamp")
+    else:
+        r5.ok({"writers_of_Packet._dtm": [g.short for g, _ in dw]})
+    # ...and a packet's log record is stamped with that timestamp whatever else is configured: the read of `<record>._dtm` is not
+    # subordinate to another time source (a module-level clock hook tested first would stamp the line with the *previous* packet)
+    for g in repo.funcs.values():
+        if g.module.name != "ramses_tx.logger":
+            continue
+        for n in own_nodes(g.node):
+            if isinstance(n, ast.Attribute) and n.attr == "_dtm" and isinstance(n.ctx, ast.Load):
+                r5.instances += 1
+                r5.nontrivial += 1
+                st5 = n
+                while not isinstance(st5, ast.stmt):
+                    st5 = st5.parent  # type: ignore[attr-defined]
+                from .common import facts_at as _fa5
+
+                foreign = [t for t, _v in _fa5(st5) if "_dtm" not in norm(t).replace("_dtm_now", "") and "isinstance" not in norm(t)]
+                if foreign:
+                    r5.fail(f"{g.short}:packet-stamp-subordinate", g.loc(n), f"the packet's own timestamp is only used for its log record when `{norm(foreign[0])[:60]}` allows it: with that other time source configured (a replay that is being re-recorded) every line is stamped with the previous packet's time, so the log does not replay as the recorded session")
+                else:
+                    r5.ok({"stamp_from_packet": f"{g.short}: {norm(getattr(n, 'parent', n))[:40]}", "unconditional": True})
     # every packet that was delivered is written: the packet-log filters decide on the record's level alone - a filter with memory
     # (drop a line equal to the previous one, rate limits, sampling) makes the log a different session from the one that happened
     for fname in ("PktLogFilter",):
